@@ -48,6 +48,10 @@ def check(run):
     for m in ("km_unchecked", "any_signature"):
         run.mutant("CCT", f"CCT_mut_{m}.cfg", expect="EndToEnd", timeout=300)
     cct_engine.simulate_and_replay(run, 200 if quick else 4000)
+    # the role's rule must also decide when two delegation checks run concurrently over shared trusted metadata:
+    # every 1-pre-emption line schedule of three fixed call pairs (the full schedule exploration is C12's)
+    from .. import calls_engine
+    calls_engine.preemption_schedules(run, quick, two_preemptions=0 if quick else 500)
     traces_delegation.fixture_traces(run, owns)
     traces_delegation.random_traces(run, 300 if quick else 6000, owns)
 
